@@ -139,8 +139,21 @@ fn hint(frames: f32) -> f32 {
         core::f32::consts::E.powf(-1.0 / frames)
     }
 }
-fn frames_of(tq: &Value) -> f32 {
-    tq.as_u64().unwrap() as f32 / 4.0
+/// time constants travel as integer quarter frames `tq`; `nz` = 1 (only with tq = 0) makes the driver
+/// pass IEEE negative zero, which is a zero time too (-0.0 == 0.0, -0.0 >= 0.0)
+fn frames_of(tq: &Value, nz: &Value) -> f32 {
+    let t = tq.as_u64().unwrap();
+    if t == 0 && nz.as_u64().unwrap_or(0) == 1 {
+        -0.0f32
+    } else {
+        t as f32 / 4.0
+    }
+}
+fn is_neg_zero(f: f32) -> bool {
+    f == 0.0 && f.is_sign_negative()
+}
+fn flag(v: &Value) -> Value {
+    json!(v.as_u64().unwrap_or(0))
 }
 
 fn env_run<S, OS, D, const N: usize>(
@@ -154,16 +167,31 @@ fn env_run<S, OS, D, const N: usize>(
     OS: Fmt,
     D: Detect<[S; N], Output = [OS; N]>,
 {
-    let cfg = reset["cfg"].clone();
+    // the logged header always carries nza / nzr (negative-zero attack / release time) and srclen (-1 = none)
+    let mut cfg = reset["cfg"].clone();
+    cfg["nza"] = flag(&cfg["nza"]);
+    cfg["nzr"] = flag(&cfg["nzr"]);
+    let srclen = cfg["srclen"].as_u64();
+    cfg["srclen"] = json!(srclen.map(|v| v as i64).unwrap_or(-1));
     let via_signal = cfg["via"].as_str().unwrap_or("direct") == "signal";
-    let (af, rf) = (frames_of(&cfg["attack"]), frames_of(&cfg["release"]));
+    let (af, rf) = (frames_of(&cfg["attack"], &cfg["nza"]), frames_of(&cfg["release"], &cfg["nzr"]));
+    // what is logged is what was passed: the flag is 1 exactly when the time handed over is -0.0
+    cfg["nza"] = json!(is_neg_zero(af) as u64);
+    cfg["nzr"] = json!(is_neg_zero(rf) as u64);
     let hints = json!({"ok": true, "ga": f32f(hint(af)), "gr": f32f(hint(rf))});
     let frames: Vec<Option<[S; N]>> = ops.iter().map(|op| op["a"].get("x").map(|v| dec_frame::<S, N>(v))).collect();
     enum Run<A, B> {
         Direct(A),
         Sig(B),
     }
-    let src: Vec<[S; N]> = frames.iter().filter_map(|f| *f).collect();
+    // adaptor runs: the source signal yields the frames of the env_sig_next events in order.
+    // cfg.srclen >= 0 cuts the source short: later calls read past its end, where a finite signal
+    // yields equilibrium -- the stimulus puts equilibrium frames into those events (they are what
+    // is logged as the call's input and what the shadow detection sees)
+    let mut src: Vec<[S; N]> = frames.iter().filter_map(|f| *f).collect();
+    if let (true, Some(sl)) = (via_signal, srclen) {
+        src.truncate(sl as usize);
+    }
     let built = catch(move || {
         let det = make(af, rf);
         if via_signal {
@@ -205,7 +233,10 @@ fn env_run<S, OS, D, const N: usize>(
             }
             None => {
                 let which = op["a"]["which"].as_str().unwrap();
-                let fr = frames_of(&op["a"]["tq"]);
+                let mut a = op["a"].clone();
+                a["nz"] = flag(&a["nz"]);
+                let fr = frames_of(&a["tq"], &a["nz"]);
+                a["nz"] = json!(is_neg_zero(fr) as u64);
                 let (r, h, _) = measured(|| {
                     catch(|| match (&mut run, which) {
                         (Run::Direct(d), "attack") => d.set_attack_frames(fr),
@@ -216,7 +247,7 @@ fn env_run<S, OS, D, const N: usize>(
                     })
                 });
                 let r = if r.is_some() { r_unit() } else { r_panic() };
-                out.ev(ev, op["a"].clone(), r, json!({"hint": f32f(hint(fr))}), h);
+                out.ev(ev, a, r, json!({"hint": f32f(hint(fr))}), h);
             }
         }
     }
@@ -452,25 +483,88 @@ fn gen_env(rng: &mut Rng, thorough: bool, execs: &mut Vec<Vec<Value>>) {
     let fmts = ["f32", "f64", "i16"];
     let dets = ["full", "pos", "neg", "rms"];
     let count = if thorough { 360 } else { 48 };
+    // a zero time is passed as IEEE negative zero (-0.0 == 0.0: a zero time too) one time in three
+    fn nz_of(rng: &mut Rng, tq: u64) -> u64 {
+        (tq == 0 && rng.chance(1, 3)) as u64
+    }
     for k in 0..count {
         let fmt = fmts[k % 3];
         let det = dets[(k / 3) % 4];
         let ch = 1 + (k / 12 + k) % 4;
         let via = if k % 5 == 4 { "signal" } else { "direct" };
         let n = if det == "rms" { *rng.pick(&[1usize, 2, 3, 8]) } else { 0 };
-        let (ta, tr) = (times[rng.below(6) as usize], times[rng.below(6) as usize]);
-        let mut ex = vec![json!({"ev":"reset","comp":"env","cfg":{"fmt":fmt,"ch":ch,"det":det,"n":n,
-                                 "attack":ta,"release":tr,"via":via}})];
         let len = rng.range(40, if thorough { 160 } else { 90 }) as usize;
+        // deliberate scenarios (k % 7 and k % 10 meet every format; both meet every detection kind over the run):
+        //  zero phase: attack = release = 0 for a stretch (from the start, or switched to mid-run), then a
+        //    non-zero time -- the smoothing must continue from the last envelope yielded in the zero phase;
+        //  finite source: every other adaptor run reads its source past the end (cfg.srclen): the later
+        //    events carry equilibrium frames and the release tail must keep decaying (release > 0 there).
+        let zero_phase: Option<(usize, usize)> = match k % 7 {
+            3 => Some((0, len / 3)),               // zero times from construction
+            5 => Some((len / 3, 2 * len / 3)),     // switched to zero mid-run
+            _ => None,
+        };
+        // (where both scenarios meet, the source ends after the zero phase)
+        let srclen = if via == "signal" && k % 10 == 4 {
+            Some(rng.range(len as i64 / if zero_phase.is_some() { 2 } else { 4 }, 3 * len as i64 / 4) as usize)
+        } else {
+            None
+        };
+        let (mut ta, mut tr) = (times[rng.below(6) as usize], times[rng.below(6) as usize]);
+        if let Some((0, _)) = zero_phase {
+            ta = 0;
+            tr = 0;
+        } else if srclen.is_some() && tr == 0 {
+            tr = times[1 + rng.below(4) as usize];
+        }
+        let (nza, nzr) = (nz_of(rng, ta), nz_of(rng, tr));
+        let mut ex = vec![json!({"ev":"reset","comp":"env","cfg":{"fmt":fmt,"ch":ch,"det":det,"n":n,
+                                 "attack":ta,"release":tr,"nza":nza,"nzr":nzr,"via":via,
+                                 "srclen": srclen.map(|v| v as i64).unwrap_or(-1)}})];
+        let set_ev = if via == "signal" { "env_sig_set" } else { "env_set" };
+        let next_ev = if via == "signal" { "env_sig_next" } else { "env_next" };
         // input shapes: rising ramp, falling ramp, constant stretches, noise
         let shape = k % 4;
         let mut level: Vec<f64> = (0..ch).map(|_| if shape == 1 { 0.9 } else { 0.02 }).collect();
         let mut i = 0;
         while i < len {
-            if rng.chance(1, 18) {
+            let in_zero = zero_phase.map_or(false, |(a, b)| a <= i && i < b);
+            if let Some((a, b)) = zero_phase {
+                if i == a && a > 0 {
+                    // both times to zero (either order)
+                    let first = rng.below(2) as usize;
+                    for w in [first, 1 - first] {
+                        let which = ["attack", "release"][w];
+                        ex.push(json!({"ev": set_ev, "a": {"which": which, "tq": 0, "nz": nz_of(rng, 0)}}));
+                    }
+                }
+                if i == b {
+                    // end of the zero phase: BOTH times non-zero (either order), so that whichever gain the
+                    // next frame picks, it smooths from the envelope last yielded in the phase
+                    let first = rng.below(2) as usize;
+                    for w in [first, 1 - first] {
+                        let which = ["attack", "release"][w];
+                        ex.push(json!({"ev": set_ev, "a": {"which": which, "tq": times[1 + rng.below(6) as usize], "nz": 0}}));
+                    }
+                }
+            }
+            let at_end = zero_phase.map_or(false, |(_, b)| i == b);
+            if !in_zero && !at_end && rng.chance(1, 18) {
                 let which = *rng.pick(&["attack", "release"]);
-                let tq = times[rng.below(7) as usize];
-                ex.push(json!({"ev": if via == "signal" {"env_sig_set"} else {"env_set"}, "a": {"which": which, "tq": tq}}));
+                // a finite-source run keeps its release time non-zero (the tail is the point of it)
+                let tq = if srclen.is_some() && which == "release" { times[1 + rng.below(6) as usize] } else { times[rng.below(7) as usize] };
+                ex.push(json!({"ev": set_ev, "a": {"which": which, "tq": tq, "nz": nz_of(rng, tq)}}));
+            }
+            if srclen.map_or(false, |sl| i >= sl) {
+                // past the end of the source: equilibrium
+                let z = match fmt {
+                    "f32" => f32f(0.0),
+                    "f64" => f64f(0.0),
+                    _ => big(0),
+                };
+                ex.push(json!({"ev": next_ev, "a": {"x": Value::Array((0..ch).map(|_| z.clone()).collect())}}));
+                i += 1;
+                continue;
             }
             let x: Vec<Value> = (0..ch)
                 .map(|c| {
@@ -494,7 +588,7 @@ fn gen_env(rng: &mut Rng, thorough: bool, execs: &mut Vec<Vec<Value>>) {
                     }
                 })
                 .collect();
-            ex.push(json!({"ev": if via == "signal" {"env_sig_next"} else {"env_next"}, "a": {"x": x}}));
+            ex.push(json!({"ev": next_ev, "a": {"x": x}}));
             i += 1;
         }
         execs.push(ex);
